@@ -20,7 +20,7 @@ ID = "C14"
 LEVEL = "model_checking"
 ENGINE = "E2-explicit-state-histories"
 TECHNIQUE = "exhaustive enumeration of load histories (depth-bounded, every class kind) on the real API with state invariants after every transition"
-CLAIM = ("All histories up to depth D over an alphabet of 13 load outcomes (including loads nested inside a scope provider and two-file loads) "
+CLAIM = ("All histories up to depth D over an alphabet of 15 load outcomes (including loads nested inside a scope provider and two-file loads) "
          "are run for four kinds of user classes; after every step the user classes must be byte-for-byte uninstrumented with empty per-object "
          "storage, and every successful load must have called each __init__ exactly once with exactly the rule attributes, resolved references "
          "and before any object processor.")
@@ -38,7 +38,7 @@ EXPECT = {"a": ("Node", {"name", "up", "items", "parent"}), "b": ("Leaf", {"name
           "c": ("Leaf", {"name", "up", "val", "parent"}), "d": ("Leaf", {"name", "up", "val", "parent"})}
 
 OPS = ["ok", "syntax", "unknown", "initfail", "procfail", "provfail", "nested-ok", "nested-syntax", "nested-unknown", "import-ok", "import-syntax",
-       "import-unknown", "import-procfail"]
+       "import-unknown", "import-procfail", "matchfail", "import-missing"]
 KINDS = ["plain", "slots", "frozen", "custom"]
 DUNDERS = ("__setattr__", "__delattr__", "__getattribute__", "__getattr__")
 
@@ -154,7 +154,12 @@ class World:
                 if w.ctl.get("procfail") and rule == "Leaf" and getattr(obj, "name", None) == "c":
                     raise ValueError("processor failure injected")
             return p
-        self.mm.register_obj_processors({"Node": proc("Node"), "Leaf": proc("Leaf")})
+        def intproc(x):
+            # a match processor: runs while the parse tree is turned into objects, i.e. inside a half-built user object
+            if w.ctl.get("matchfail") and x == "3":
+                raise ValueError("match processor failure injected")
+            return int(x)
+        self.mm.register_obj_processors({"Node": proc("Node"), "Leaf": proc("Leaf"), "INT": intproc})
         inner = PlainNameImportURI()
 
         class Prov(PlainNameImportURI):
@@ -184,14 +189,14 @@ class World:
             text = "n a { l b -> }"
         elif op == "unknown":
             text = "n a { l b -> zz }"
-        elif op in ("initfail", "procfail", "provfail"):
+        elif op in ("initfail", "procfail", "provfail", "matchfail"):
             self.ctl[op] = True
         elif op.startswith("nested"):
             self.ctl["nested"] = {"nested-ok": "l x l y -> x", "nested-syntax": "l x l", "nested-unknown": "l x -> zz"}[op]
         elif op.startswith("import"):
             with open(os.path.join(self.dir, "lib.m"), "w") as f:
                 f.write("l libx l" if op == "import-syntax" else "l libx l liby -> libx")
-            text = 'import "lib.m" ' + (OK_TEXT if op != "import-unknown" else "n a { l b -> zz }")
+            text = 'import "%s" ' % ("nosuch.m" if op == "import-missing" else "lib.m") + (OK_TEXT if op != "import-unknown" else "n a { l b -> zz }")
             if op == "import-procfail":
                 self.ctl["procfail"] = True
             fn = os.path.join(self.dir, "main.m")
